@@ -333,6 +333,23 @@ def rule_r4(chk, db, g):
                 "the stream can end cleanly (Ok) on a path that does not depend on having seen the zero-length final chunk: a truncated upload succeeds")
     chk.verdict(end_paths_pass(len_gates), "R4", "declared-length-checked", g.loc(okb[0]),
                 "the stream can end cleanly (Ok) without comparing the decoded byte count with x-amz-decoded-content-length")
+    # the comparison is exact: an equality over arithmetic that cannot make two different totals look the same
+    CLAMPING = ("saturating_sub", "wrapping_sub", "min", "max", "clamp", "rem", "rem_euclid", "abs_diff", "wrapping_add", "overflowing_sub", "checked_rem")
+    for s in len_gates:
+        t = g.blocks[s]["term"]
+        sl = flow.backward(g, t["discr"], at=s)
+        clamps = sorted({short(callee_def(c)) for _, c, _ in sl.calls if short(callee_def(c)) in CLAMPING and
+                         (callee_def(c).startswith("core::num") or "::cmp::" in callee_def(c))})
+        src = paths.switch_source(g, t)
+        op = src[1]["op"] if src and src[0] == "bin" else None
+        one_sided = op in ("Lt", "Le", "Gt", "Ge")
+        why = []
+        if clamps:
+            why.append("the byte count it compares is computed with %s, which maps different totals to the same value" % ", ".join(clamps))
+        if one_sided:
+            why.append("it is a one-sided comparison (%s): totals on the other side are accepted" % op)
+        chk.verdict(not why, "R4", "declared-length-exact#%d" % len_gates.index(s), g.loc(s),
+                    "the declared-length check is not an exact equality: " + "; ".join(why))
 
 
 def rule_r5(chk, db):
